@@ -1714,11 +1714,9 @@ TRUSTED += ['translate/pypdata2coq.py (fail-closed AST translator of pipeline.no
             'iteration and unpacking of tuples, slice.start / .step, int-or-None used as a number (TypeError on None), python list '
             'indexing of label / metadata lists (lab_getitem: Common/PySlice.v), np.arange(n)[list], [l[s] for s in idx], '
             'np.array(l)[list].tolist(), len of a scalar label (TypeError); labels and metadata entries are identifiers as in the model']
-ASSUMPTIONS += ['translator tie: the equality generated __getitem__ = model is proved when NumPy raises, returns a genuine scalar or an '
-                'array of 1 to 3 dimensions (np_plain; every case in which the model returns an annotated array, hence every C11 theorem); '
-                'for a 0-d array obtained with an Ellipsis and for results above 3-D (both always an error in the model) it is tested '
-                'only; index values are those of the universe (tuples one level deep, 1-D index arrays; an annotated array used as an '
-                'index is outside it: known finding getitem:annotated-array-used-as-index-skips-fixup)']
+ASSUMPTIONS += ['translator tie: index values are those of the universe of coq/PData/TieLib.v (tuples one level deep, 1-D index arrays, no '
+                'bare bool); an annotated array used as an index is outside it (known finding getitem:annotated-array-used-as-index-skips-fixup); '
+                'the empty python list has two representations (list of ints / list of bools), as in the model']
 
 
 def translate(repo):
